@@ -91,6 +91,118 @@ def murmur3_32(buf: bytes, seed: int) -> int:
     return h
 
 
+# ---------------------------------------------------------------------------------------------
+# steering: inputs constructed (by inverting the block functions) so that a chosen internal state, or the
+# output, takes a chosen value.  Only used to *generate* inputs; the forward functions above stay the oracle.
+# ---------------------------------------------------------------------------------------------
+def fasthash64_states(buf: bytes, seed: int):
+    """[state before block 0, after block 0, ..., after the last full block, (after the tail)] - the last entry is what the
+    final mix is applied to."""
+    n = len(buf)
+    h = (seed ^ ((n * FH_M) & M64)) & M64
+    out = [h]
+    nblocks = n // 8
+    for i in range(nblocks):
+        h ^= _mix(int.from_bytes(buf[8 * i: 8 * i + 8], "little"))
+        h = (h * FH_M) & M64
+        out.append(h)
+    tail = buf[8 * nblocks:]
+    if tail:
+        h ^= _mix(int.from_bytes(tail, "little"))
+        h = (h * FH_M) & M64
+        out.append(h)
+    return out
+
+
+def fasthash64_steer(buf: bytes, seed: int, index: int, value: int):
+    """(buf', seed') equal to (buf, seed) except for one full block (or the seed, when the state to steer is reached before any
+    full block) such that fasthash64_states(buf', seed')[index] == value.  index == -1 / 'out' steers the returned hash."""
+    n = len(buf)
+    nblocks = n // 8
+    tail = buf[8 * nblocks:]
+    states = fasthash64_states(buf, seed)
+    if index == "out":
+        index, value = len(states) - 1, _unmix(value & M64)
+    if index < 0:
+        index += len(states)
+    value &= M64
+    if index == nblocks + 1:
+        # the state after the tail: move the requirement to the state after the last full block
+        value = ((value * FH_M_INV) & M64) ^ _mix(int.from_bytes(tail, "little"))
+        index = nblocks
+    if index == 0:
+        return buf, (value ^ ((n * FH_M) & M64)) & M64
+    prev = states[index - 1]
+    v = _unmix(prev ^ ((value * FH_M_INV) & M64))
+    b = bytearray(buf)
+    b[8 * (index - 1): 8 * index] = v.to_bytes(8, "little")
+    return bytes(b), seed
+
+
+MM_C1, MM_C2 = 0xCC9E2D51, 0x1B873593
+MM_C1_INV, MM_C2_INV = pow(MM_C1, -1, 1 << 32), pow(MM_C2, -1, 1 << 32)
+MM_5_INV = pow(5, -1, 1 << 32)
+MM_F1_INV, MM_F2_INV = pow(0x85EBCA6B, -1, 1 << 32), pow(0xC2B2AE35, -1, 1 << 32)
+
+
+def _mm_k(k):
+    return (_rotl32((k * MM_C1) & M32, 15) * MM_C2) & M32
+
+
+def _mm_unk(kp):
+    return (_rotl32((kp * MM_C2_INV) & M32, 17) * MM_C1_INV) & M32
+
+
+def _unfmix32(h):
+    h ^= h >> 16
+    h = (h * MM_F2_INV) & M32
+    h ^= (h >> 13) ^ (h >> 26)
+    h = (h * MM_F1_INV) & M32
+    h ^= h >> 16
+    return h & M32
+
+
+def murmur3_states(buf: bytes, seed: int):
+    """[seed, state after block 0, ..., after the last full block, (after the tail xor)]; fmix32(last ^ len) is returned."""
+    n = len(buf)
+    h = seed & M32
+    out = [h]
+    nblocks = n // 4
+    for i in range(nblocks):
+        h ^= _mm_k(int.from_bytes(buf[4 * i: 4 * i + 4], "little"))
+        h = _rotl32(h, 13)
+        h = (h * 5 + 0xE6546B64) & M32
+        out.append(h)
+    tail = buf[4 * nblocks:]
+    if tail:
+        h ^= _mm_k(int.from_bytes(tail, "little"))
+        out.append(h)
+    return out
+
+
+def murmur3_steer(buf: bytes, seed: int, index, value: int):
+    n = len(buf)
+    nblocks = n // 4
+    tail = buf[4 * nblocks:]
+    states = murmur3_states(buf, seed)
+    if index == "out":
+        index, value = len(states) - 1, _unfmix32(value & M32) ^ (n & M32)
+    if index < 0:
+        index += len(states)
+    value &= M32
+    if index == nblocks + 1:
+        value ^= _mm_k(int.from_bytes(tail, "little"))
+        index = nblocks
+    if index == 0:
+        return buf, value
+    prev = states[index - 1]
+    x = _rotl32(((value - 0xE6546B64) * MM_5_INV) & M32, 19)  # rotr 13
+    k = _mm_unk(x ^ prev)
+    b = bytearray(buf)
+    b[4 * (index - 1): 4 * index] = k.to_bytes(4, "little")
+    return bytes(b), seed
+
+
 # Published MurmurHash3_x86_32 vectors that do not come from the repository under test.
 MURMUR3_VECTORS = [
     (b"", 0, 0x00000000),
@@ -122,4 +234,29 @@ def self_test():
     for buf in (b"", b"a", b"abc", b"\0\0\0\0\0\0\0"):
         for t in (0, 1, M64, 1 << 63, 0x1234):
             assert fasthash64(buf, seed_for_target(buf, t)) == t
+    import random
+    rnd = random.Random(5)
+    for n in list(range(0, 40)) + [64, 67]:
+        buf = bytes(rnd.randrange(256) for _ in range(n))
+        seed = rnd.randrange(1 << 64)
+        st = fasthash64_states(buf, seed)
+        assert _mix(st[-1]) == fasthash64(buf, seed)
+        for idx in list(range(len(st))) + ["out"]:
+            for val in (0, 1, M64, 1 << 63, rnd.randrange(1 << 64)):
+                b2, s2 = fasthash64_steer(buf, seed, idx, val)
+                assert len(b2) == n
+                if idx == "out":
+                    assert fasthash64(b2, s2) == val, (n, idx, val)
+                else:
+                    assert fasthash64_states(b2, s2)[idx] == val, (n, idx, val)
+        seed &= M32
+        st = murmur3_states(buf, seed)
+        for idx in list(range(len(st))) + ["out"]:
+            for val in (0, 1, M32, 1 << 31, rnd.randrange(1 << 32)):
+                b2, s2 = murmur3_steer(buf, seed, idx, val)
+                assert len(b2) == n
+                if idx == "out":
+                    assert murmur3_32(b2, s2) == val, (n, idx, val)
+                else:
+                    assert murmur3_states(b2, s2)[idx] == val, (n, idx, val)
     return True
